@@ -1,0 +1,7 @@
+//go:build !verif
+
+package dcs
+
+// verifHook is a verification scheduling point; it compiles to nothing
+// unless the build tag "verif" is set.
+func verifHook(point, who string) {}
